@@ -21,23 +21,23 @@ macro "il_unfold" : tactic => `(tactic| simp only [
   Nat.reduceLeDiff, Nat.reduceSub, Nat.reduceAdd, Nat.reduceMul, Nat.reduceDiv, reduceIte, Nat.reduceLT, Nat.toUInt64_eq, UInt64.reduceOfNat] at *)
 
 theorem interleave2x8_ok (x y : UInt8) : (interleave2x8 x y).toUInt64 = Spec.interleave2 8 x.toUInt64 y.toUInt64 := by
-  il_unfold; bv_decide
+  il_unfold; bv_decide (config := { timeout := 600 })
 theorem interleave2x16_ok (x y : UInt16) : (interleave2x16 x y).toUInt64 = Spec.interleave2 16 x.toUInt64 y.toUInt64 := by
-  il_unfold; bv_decide
+  il_unfold; bv_decide (config := { timeout := 600 })
 theorem interleave2x32_ok (x y : UInt32) : interleave2x32 x y = Spec.interleave2 32 x.toUInt64 y.toUInt64 := by
-  il_unfold; bv_decide
+  il_unfold; bv_decide (config := { timeout := 600 })
 theorem interleave3x8_ok (x y z : UInt8) : (interleave3x8 x y z).toUInt64 = Spec.interleave3 8 x.toUInt64 y.toUInt64 z.toUInt64 := by
-  il_unfold; bv_decide
+  il_unfold; bv_decide (config := { timeout := 600 })
 theorem interleave3x16_ok (x y z : UInt16) : interleave3x16 x y z = Spec.interleave3 16 x.toUInt64 y.toUInt64 z.toUInt64 := by
-  il_unfold; bv_decide
+  il_unfold; bv_decide (config := { timeout := 600 })
 theorem interleave3x32_ok (x y z : UInt32) : interleave3x32 x y z = Spec.interleave3 32 x.toUInt64 y.toUInt64 z.toUInt64 := by
-  il_unfold; bv_decide
+  il_unfold; bv_decide (config := { timeout := 600 })
 theorem interleave4x8_ok (x y z w : UInt8) :
     (interleave4x8 x y z w).toUInt64 = Spec.interleave4 8 x.toUInt64 y.toUInt64 z.toUInt64 w.toUInt64 := by
-  il_unfold; bv_decide
+  il_unfold; bv_decide (config := { timeout := 600 })
 theorem interleave4x16_ok (x y z w : UInt16) :
     interleave4x16 x y z w = Spec.interleave4 16 x.toUInt64 y.toUInt64 z.toUInt64 w.toUInt64 := by
-  il_unfold; bv_decide
+  il_unfold; bv_decide (config := { timeout := 600 })
 
 example : interleave2x8 0xFF 0x00 = 0x5555 ∧ interleave2x8 0x00 0xFF = 0xAAAA ∧ interleave2x8 0x0F 0x01 = 0x0057 := by decide
 example : Spec.interleave2 8 0x0F 0x01 = 0x57 ∧ Spec.interleave3 8 1 1 1 = 7 ∧ Spec.interleave4 8 2 0 0 2 = 0x90 := by decide
@@ -45,31 +45,31 @@ example : interleave3x32 0x200000 0 0 = 0x8000000000000000 ∧ interleave3x32 0x
 
 theorem deinterleave16_ok (v : UInt16) :
     (deinterleave16x v).toUInt64 = Spec.gather2 0 v.toUInt64 8 ∧ (deinterleave16y v).toUInt64 = Spec.gather2 1 v.toUInt64 8 := by
-  il_unfold; constructor <;> bv_decide
+  il_unfold; constructor <;> bv_decide (config := { timeout := 600 })
 theorem deinterleave32_ok (v : UInt32) :
     (deinterleave32x v).toUInt64 = Spec.gather2 0 v.toUInt64 16 ∧ (deinterleave32y v).toUInt64 = Spec.gather2 1 v.toUInt64 16 := by
-  il_unfold; constructor <;> bv_decide
+  il_unfold; constructor <;> bv_decide (config := { timeout := 600 })
 theorem deinterleave64_ok (v : UInt64) :
     (deinterleave64x v).toUInt64 = Spec.gather2 0 v 32 ∧ (deinterleave64y v).toUInt64 = Spec.gather2 1 v 32 := by
-  il_unfold; constructor <;> bv_decide
+  il_unfold; constructor <;> bv_decide (config := { timeout := 600 })
 
 /-- bitfieldDeinterleave ∘ bitfieldInterleave = id -/
 theorem deinterleave_interleave_8 (x y : UInt8) :
     deinterleave16x (interleave2x8 x y) = x ∧ deinterleave16y (interleave2x8 x y) = y := by
-  il_unfold; constructor <;> bv_decide
+  il_unfold; constructor <;> bv_decide (config := { timeout := 600 })
 theorem deinterleave_interleave_16 (x y : UInt16) :
     deinterleave32x (interleave2x16 x y) = x ∧ deinterleave32y (interleave2x16 x y) = y := by
-  il_unfold; constructor <;> bv_decide
+  il_unfold; constructor <;> bv_decide (config := { timeout := 600 })
 theorem deinterleave_interleave_32 (x y : UInt32) :
     deinterleave64x (interleave2x32 x y) = x ∧ deinterleave64y (interleave2x32 x y) = y := by
-  il_unfold; constructor <;> bv_decide
+  il_unfold; constructor <;> bv_decide (config := { timeout := 600 })
 /-- and the other way round: interleave ∘ deinterleave = id -/
 theorem interleave_deinterleave_16 (v : UInt16) : interleave2x8 (deinterleave16x v) (deinterleave16y v) = v := by
-  il_unfold; bv_decide
+  il_unfold; bv_decide (config := { timeout := 600 })
 theorem interleave_deinterleave_32 (v : UInt32) : interleave2x16 (deinterleave32x v) (deinterleave32y v) = v := by
-  il_unfold; bv_decide
+  il_unfold; bv_decide (config := { timeout := 600 })
 theorem interleave_deinterleave_64 (v : UInt64) : interleave2x32 (deinterleave64x v) (deinterleave64y v) = v := by
-  il_unfold; bv_decide
+  il_unfold; bv_decide (config := { timeout := 600 })
 
 example : deinterleave16x 0x0057 = 0x0F ∧ deinterleave16y 0x0057 = 0x01 := by decide
 
